@@ -173,7 +173,8 @@ ENTRIES = [
     B('cookie-readd-without-clear', COOKIE, "        request.fields.clear()\n\n", "", 'C16-D3'),
     B('cookie-readd-other-request', COOKIE, "        new_request = convert_http_request(request, referrer_host)\n        self._cookie_jar.add_cookie_header(new_request)\n\n        request.fields.clear()",
       "        new_request = convert_http_request(request, referrer_host)\n        self._cookie_jar.add_cookie_header(new_request)\n        new_request = self._last_request\n\n        request.fields.clear()", 'C16-D3'),
-    B('parse-split-on-lf-only', NV, "        lines = unfold_lines(string).splitlines()\n", "        lines = unfold_lines(string).split('\\n')\n", 'C16-D3'),
+    B('parse-split-on-lf-only', NV, "        lines = split_lines(unfold_lines(string))\n", "        lines = unfold_lines(string).split('\\n')\n", 'C16-D3'),
+    B('split-lines-keeps-bare-cr', NV, "    lines = string.replace('\\r\\n', '\\n').replace('\\r', '\\n').split('\\n')\n", "    lines = string.replace('\\r\\n', '\\n').split('\\n')\n", 'C16-D3'),
     B('post-content-type-from-record', PWEB, "        request.fields['Content-Type'] = 'application/x-www-form-urlencoded'\n",
       "        request.fields['Content-Type'] = self._item_session.url_record.post_data\n", 'C16-D3'),
     B('fields-update-from-response', WEB, "        self._next_request = request\n\n        _logger.debug('Updated next redirect request",
